@@ -69,7 +69,7 @@ func admit(src, dst string, peers []c13Peer) bool {
 func c13World(t *testing.T, p c13Params) rt.Result {
 	nAdmit, nRefuse := 0, 0
 	lr := rt.Get().Rand("c13lis", int(p.Seed))
-	out := hz.Run(t, hz.Opts{Seed: p.Seed, HookMode: p.Hook, ExtraListeners: int(p.Seed % 3)}, func(w *hz.World) {
+	out := hz.Run(t, hz.Opts{Seed: p.Seed, HookMode: p.Hook, ExtraListeners: int(mix(p.Seed) % 3)}, func(w *hz.World) {
 		nl := 1 + len(w.Extra)
 		mons := map[string]*hz.PeerMon{}
 		live := map[string]*hz.RConn{} // the connection that carries a peer's Established session
